@@ -5,7 +5,7 @@ import re
 
 import z3
 
-from mirsym import (Agg, Bool, EnumV, FnV, Int, Lazy, Opaque, Ref, Str, Unit, V, INT_W, Event,
+from mirsym import (Agg, Bool, EnumV, FnV, Int, Lazy, ListV, Opaque, Ref, Str, Unit, V, INT_W, Event,
                     sanitize, type_base, strip_generics, is_signed)
 from common import Inconclusive
 
@@ -220,7 +220,94 @@ def s_format(e, st, callee, args, dty):
     return Lazy(sanitize(st.fresh("formatted")), "String")
 
 
+def s_clone_value(e, st, callee, args, dty):
+    v = deref_val(e, st, args[0])
+    return v
+
+
+# ---- concrete-length lists ------------------------------------------------------------------
+
+def _list_of(e, st, v):
+    v0 = deref_val(e, st, v)
+    return v0 if isinstance(v0, ListV) else None
+
+
+def s_vec_len(e, st, callee, args, dty):
+    l = _list_of(e, st, args[0])
+    if l is None:
+        return NotImplemented
+    return Int(z3.BitVecVal(len(l.items), 64), "usize")
+
+
+def s_vec_is_empty(e, st, callee, args, dty):
+    l = _list_of(e, st, args[0])
+    if l is None:
+        return NotImplemented
+    return Bool(z3.BoolVal(len(l.items) == 0))
+
+
+def s_vec_index(e, st, callee, args, dty):
+    r, i = args[0], args[1]
+    l = _list_of(e, st, r)
+    if l is None or not isinstance(r, Ref) or not isinstance(i, Int):
+        return NotImplemented
+    iv = z3.simplify(i.t)
+    if not z3.is_bv_value(iv):
+        return NotImplemented
+    k = iv.as_long()
+    if k >= len(l.items):
+        return [(None, "diverge")]
+    return Ref(r.cell, r.path + (("elem", k),), r.mut)
+
+
+def s_into_iter(e, st, callee, args, dty):
+    v = args[0]
+    l = _list_of(e, st, v)
+    if l is None:
+        return NotImplemented
+    if isinstance(v, Ref):
+        # iterating by reference: elements are references into the list
+        return ListV([Ref(v.cell, v.path + (("elem", i),), v.mut) for i in range(len(l.items))], "iter")
+    return ListV(l.items, "iter")
+
+
+def s_iter_next(e, st, callee, args, dty):
+    r = args[0]
+    l = _list_of(e, st, r)
+    if l is None or not isinstance(r, Ref):
+        return NotImplemented
+    if not l.items:
+        return EnumV("Option", "None", 0, {})
+    e.store(st, r.cell, r.path, ListV(l.items[1:], l.ty))
+    return EnumV("Option", "Some", 1, {0: l.items[0]})
+
+
+def s_collect_vec(e, st, callee, args, dty):
+    l = _list_of(e, st, args[0])
+    if l is None:
+        return NotImplemented
+    return ListV(l.items, "Vec")
+
+
+def s_vec_push(e, st, callee, args, dty):
+    r = args[0]
+    l = _list_of(e, st, r)
+    if l is None or not isinstance(r, Ref):
+        return NotImplemented
+    e.store(st, r.cell, r.path, ListV(l.items + (args[1],), l.ty))
+    return Unit()
+
+
 BASE = {
+    r"^<.* as (std::clone::)?Clone>::clone$": s_clone_value,
+    r"^(std::vec::|alloc::vec::)?Vec::len$|^core::slice::<impl \[T\]>::len$": s_vec_len,
+    r"^(std::vec::|alloc::vec::)?Vec::is_empty$|^core::slice::<impl \[T\]>::is_empty$": s_vec_is_empty,
+    r"^<(std::vec::|alloc::vec::)?Vec<.*> as (std::ops::)?Index(Mut)?(<usize>)?>::index(_mut)?$": s_vec_index,
+    r"^<.* as (std::iter::)?IntoIterator>::into_iter$": s_into_iter,
+    r"^core::slice::<impl \[T\]>::iter(_mut)?$|^core::slice::iter$": s_into_iter,
+    r"^<.* as (std::iter::)?Iterator>::next$": s_iter_next,
+    r"^<.* as (itertools::)?Itertools>::collect_vec$|^<.* as (std::iter::)?Iterator>::collect$": s_collect_vec,
+    r"^(std::vec::|alloc::vec::)?Vec::push$": s_vec_push,
     r"^<.* as (std::ops::)?Try>::branch$": s_try_branch,
     r"^<.* as (std::ops::)?FromResidual.*>::from_residual$": s_from_residual,
     r"^(std::option::|core::option::)?Option::(unwrap|expect)$": s_unwrap,
